@@ -96,6 +96,25 @@ pub fn gen_mut_op(rng: &mut Rng, spec: &WorldSpec, alphabet: usize) -> OpSpec {
     } else if rng.chance(1, 6) {
         s.no_symlinks = true;
     }
+    // "every path argument": through the Rust facade that includes byte
+    // strings with an embedded NUL (a C string ends there, a Path does not)
+    if s.facade == Facade::Rust && rng.chance(1, 25) {
+        let nul = |p: &mut String, rng: &mut Rng| {
+            let v = *rng.pick(&["..\0x", ".\0x", "a/..\0", "..\0/..", "a\0/../..", "\0", "../..\0y"]);
+            *p = if rng.chance(1, 2) || p.is_empty() { v.replace("\\0", "\0") } else { format!("{p}/{}", v.replace("\\0", "\0")) };
+        };
+        match &mut s.op {
+            Op::Create { path, .. } | Op::CreateFile { path, .. } | Op::MkdirAll { path, .. } | Op::RemoveFile { path } | Op::RemoveDir { path } | Op::RemoveAll { path } => nul(path, rng),
+            Op::Rename { src, dst, .. } => {
+                if rng.chance(1, 2) {
+                    nul(src, rng)
+                } else {
+                    nul(dst, rng)
+                }
+            }
+            _ => {}
+        }
+    }
     s
 }
 
@@ -248,6 +267,7 @@ pub fn run(u: &mut Universe, b: &Batch, st: &mut Stats) {
                 let mut atk = Attacker::new(&w);
                 if case.extra["race_world"].as_bool() == Some(true) {
                     atk.catalogue = Some(muts.clone());
+                    atk.compound = attack::race_compound();
                 }
                 let mut out = run_case(u, &case, &mut atk, true);
                 if let Some(e) = &out.harness_error {
